@@ -215,6 +215,26 @@ def tr_serialise(fn: ast.FunctionDef, inner: ast.FunctionDef):
     _file, ind, ob, cb, start = [x.id for x in call.args]
     if ind != 'indent' or start != 'start_indent':
         raise _err(call, 'indent/start_indent are not passed through unchanged')
+    # the returned string is what was written: `if file is None: file = buffer = io.StringIO()` ... `_serialise(file, ...)`
+    # ... `if buffer is not None: return buffer.getvalue()` (the text model describes the writes to `file`)
+    file_param = params[1] if len(params) > 1 else None
+    if _file != file_param:
+        raise _err(call, 'the file parameter is not what _serialise writes to')
+    bufs = [n for n in ast.walk(fn) if isinstance(n, ast.Assign) and isinstance(n.value, ast.Call)
+            and isinstance(n.value.func, ast.Attribute) and n.value.func.attr == 'StringIO' and not n.value.args]
+    if len(bufs) != 1 or len(bufs[0].targets) != 2 or not all(isinstance(t, ast.Name) for t in bufs[0].targets) \
+            or file_param not in [t.id for t in bufs[0].targets]:
+        raise _err(fn, '`file = buffer = io.StringIO()` not recognised')
+    buf_name = next(t.id for t in bufs[0].targets if t.id != file_param)
+    guard = [n for n in ast.walk(fn) if isinstance(n, ast.If) and bufs[0] in n.body]
+    if len(guard) != 1 or ast.dump(guard[0].test) != ast.dump(ast.parse(f'{file_param} is None', mode='eval').body):
+        raise _err(fn, 'the StringIO buffer is not created exactly when file is None')
+    rets = [n for n in ast.walk(fn) if isinstance(n, ast.Return) and n.value is not None
+            and not (isinstance(n.value, ast.Constant) and n.value.value is None)]
+    if len(rets) != 1 or ast.dump(rets[0].value) != ast.dump(ast.parse(f'{buf_name}.getvalue()', mode='eval').body):
+        raise _err(fn, 'serialise() does not return buffer.getvalue()')
+    if rets[0].lineno < call.lineno:
+        raise _err(fn, 'serialise() returns before writing')
     # no rebinding of the option names
     brace_if = None
     for n in ast.walk(fn):
@@ -323,11 +343,7 @@ def tr_inner(fn: ast.FunctionDef):
     blk = [s for s in top.body if not isinstance(s, ast.Assert)]
     if len(blk) != 1 or not isinstance(blk[0], ast.If):
         raise _err(top, 'block branch is not a single if/else on the root test')
-    rt = blk[0].test
-    if not (isinstance(rt, ast.Compare) and is_self_attr(rt.left, '_real_name') and len(rt.ops) == 1
-            and isinstance(rt.ops[0], ast.Is) and isinstance(rt.comparators[0], ast.Constant)
-            and rt.comparators[0].value is None):
-        raise _err(blk[0], 'root test is not `self._real_name is None`')
+    root_test = classify_root_test(blk[0].test, self_name)
     rpre, rloop, rpost = seq(blk[0].body, True)
     if rpre or rpost or rloop is None:
         raise _err(blk[0], 'root branch writes text of its own or has no child loop')
@@ -335,7 +351,99 @@ def tr_inner(fn: ast.FunctionDef):
     if child is None:
         raise _err(blk[0], 'named-block branch has no child loop')
     lpre, lloop, lpost = seq(top.orelse, False)
-    return dict(head=head, child_indent=child, tail=tail, leaf=lpre + lpost, root_indent=rloop), self_name
+    return dict(head=head, child_indent=child, tail=tail, leaf=lpre + lpost, root_indent=rloop,
+                root_test=root_test), self_name
+
+
+def tr_export_struct(fn: ast.FunctionDef) -> dict:
+    """The deprecated generator export(), structurally:
+         if isinstance(self._value, list):
+             if <root test>:  for kv in self._value: yield from kv.export()
+             else:            yield ...; ...; yield from (PREFIX + line for kv in self._value for line in kv.export()); yield ...
+         else:                yield ...
+       -> root test, yields before/after the children, the constant prefix, yields of a leaf.  Fail closed."""
+    self_name = fn.args.args[0].arg
+    fs = FStr(self_name, {})
+
+    def is_self_attr(n, attr):
+        return isinstance(n, ast.Attribute) and n.attr == attr and _is_name(n.value, self_name)
+
+    def is_export_call(c, var):
+        return isinstance(c, ast.Call) and isinstance(c.func, ast.Attribute) and c.func.attr == fn.name \
+            and _is_name(c.func.value, var) and not c.args and not c.keywords
+
+    def yields(stmts, allow_children):
+        pre, post, prefix = [], [], None
+        for st in stmts:
+            if isinstance(st, ast.Assert):
+                continue
+            if not isinstance(st, ast.Expr):
+                raise _err(st, f'unrecognised statement in export(): {type(st).__name__}')
+            v = st.value
+            if isinstance(v, ast.Constant) and isinstance(v.value, str):
+                continue        # a docstring-like expression statement
+            if isinstance(v, ast.Yield) and v.value is not None:
+                (pre if prefix is None else post).append(fs.pieces(v.value))
+                continue
+            if isinstance(v, ast.YieldFrom) and allow_children:
+                g = v.value
+                if prefix is not None:
+                    raise _err(st, 'two child generators in export()')
+                if not (isinstance(g, ast.GeneratorExp) and len(g.generators) == 2
+                        and all(not x.ifs and not x.is_async for x in g.generators)):
+                    raise _err(st, 'children are not yielded as (PREFIX + line for kv in self._value for line in kv.export())')
+                g1, g2 = g.generators
+                if not (isinstance(g1.target, ast.Name) and is_self_attr(g1.iter, '_value')
+                        and isinstance(g2.target, ast.Name) and is_export_call(g2.iter, g1.target.id)):
+                    raise _err(st, 'child generator does not iterate kv.export() for kv in self._value')
+                e = g.elt
+                if not (isinstance(e, ast.BinOp) and isinstance(e.op, ast.Add) and _is_name(e.right, g2.target.id)
+                        and isinstance(e.left, ast.Constant) and isinstance(e.left.value, str)):
+                    raise _err(st, 'child lines are not CONSTANT + line')
+                prefix = [('Lit', e.left.value)] if e.left.value else []
+                continue
+            raise _err(st, 'unrecognised expression statement in export()')
+        return pre, prefix, post
+
+    body = _strip_doc(fn.body)
+    if len(body) != 1 or not isinstance(body[0], ast.If):
+        raise _err(fn, 'export() body is not a single if/else')
+    top = body[0]
+    t = top.test
+    if not (isinstance(t, ast.Call) and _is_name(t.func, 'isinstance') and len(t.args) == 2
+            and is_self_attr(t.args[0], '_value') and _is_name(t.args[1], 'list')):
+        raise _err(top, 'export(): top test is not isinstance(self._value, list)')
+    blk = [x for x in top.body if not isinstance(x, ast.Assert)]
+    if len(blk) != 1 or not isinstance(blk[0], ast.If):
+        raise _err(top, 'export(): block branch is not a single if/else on the root test')
+    root_test = classify_root_test(blk[0].test, self_name)
+    rb = [x for x in blk[0].body if not isinstance(x, ast.Assert)]
+    ok_root = (len(rb) == 1 and isinstance(rb[0], ast.For) and isinstance(rb[0].target, ast.Name)
+               and is_self_attr(rb[0].iter, '_value') and not rb[0].orelse and len(rb[0].body) == 1
+               and isinstance(rb[0].body[0], ast.Expr) and isinstance(rb[0].body[0].value, ast.YieldFrom)
+               and is_export_call(rb[0].body[0].value.value, rb[0].target.id))
+    if not ok_root:
+        raise _err(blk[0], 'export(): root branch is not `for kv in self._value: yield from kv.export()`')
+    head, prefix, tail = yields(blk[0].orelse, True)
+    if prefix is None:
+        raise _err(blk[0], 'export(): named-block branch does not yield its children')
+    leaf, lp, lpost = yields(top.orelse, False)
+    return dict(root_test=root_test, head=head, prefix=prefix, tail=tail, leaf=leaf + lpost)
+
+
+def classify_root_test(t: ast.AST, self_name: str) -> str:
+    """The test that sends a list-valued node to the 'root' branch (children only, no header, no braces).
+    `self._real_name is None` -> RTIsNone; a truth test `not self._real_name` -> RTFalsy (also true of the name '');
+    anything else -> RTOther (the obligation root_test_is_None_identity fails, the translator does not)."""
+    def is_name_attr(n):
+        return isinstance(n, ast.Attribute) and n.attr in ('_real_name', 'real_name', 'name') \
+            and _is_name(n.value, self_name)
+    if isinstance(t, ast.Compare) and is_name_attr(t.left) and len(t.ops) == 1 and isinstance(t.ops[0], ast.Is) \
+            and isinstance(t.comparators[0], ast.Constant) and t.comparators[0].value is None:
+        return 'RTIsNone'
+    if isinstance(t, ast.UnaryOp) and isinstance(t.op, ast.Not) and is_name_attr(t.operand):
+        return 'RTFalsy'
+    return 'RTOther'
 
 
 def tr_export(fn: ast.FunctionDef):
@@ -350,6 +458,160 @@ def tr_export(fn: ast.FunctionDef):
                 raise _err(n, 'export() yields something that is not a string literal/f-string')
     ys.sort(key=lambda t: t[0])
     return ys, self_name
+
+
+def tr_parse(fn: ast.FunctionDef) -> dict:
+    """Decisive sites of Keyvalues.parse:
+      * the options handed to Tokenizer(...) (the lexer model hard-codes string_bracket=True and takes
+        allow_escapes from the caller; anything else fails closed);
+      * the tests guarding the two 'Illegal newline' errors: `not newline_keys and (<test>)`, `not newline_values
+        and (<test>)`, with <test> a disjunction of `'<char>' in <name>` -> the list of characters, else BTOther;
+      * the two flag-replacement tests `can_flag_replace and ... cur_block_contents[-1] ...`: whether the list is
+        tested for emptiness before it is indexed."""
+    out: dict = {}
+    # --- Tokenizer(...) construction
+    calls = [n for n in ast.walk(fn) if isinstance(n, ast.Call) and _is_name(n.func, 'Tokenizer')]
+    if len(calls) != 1:
+        raise _err(fn, f'expected one Tokenizer(...) construction in parse, found {len(calls)}')
+    kws = {}
+    for k in calls[0].keywords:
+        if k.arg is None:
+            raise _err(calls[0], 'Tokenizer(**kwargs) in parse')
+        kws[k.arg] = k.value
+    if len(calls[0].args) != 3:
+        raise _err(calls[0], 'Tokenizer(file_contents, filename, KeyValError, ...) expected')
+    if set(kws) != {'string_bracket', 'allow_escapes'}:
+        raise _err(calls[0], f'Tokenizer options in parse are {sorted(kws)}, the lexer model assumes '
+                             'string_bracket=True, allow_escapes=allow_escapes and defaults otherwise')
+    sb = kws['string_bracket']
+    if not (isinstance(sb, ast.Constant) and sb.value is True):
+        raise _err(calls[0], 'string_bracket is not True')
+    if not _is_name(kws['allow_escapes'], 'allow_escapes'):
+        raise _err(calls[0], 'allow_escapes is not passed through')
+
+    # --- newline tests
+    def brk(opt: str):
+        ifs = [n for n in ast.walk(fn) if isinstance(n, ast.If)
+               and any(_is_name(x, opt) for x in ast.walk(n.test))]
+        if len(ifs) != 1:
+            raise _err(fn, f'expected exactly one test of {opt} in parse, found {len(ifs)}')
+        node = ifs[0]
+        if not (len(node.body) == 1 and isinstance(node.body[0], ast.Raise) and not node.orelse):
+            raise _err(node, f'the test of {opt} does not guard a single raise')
+        t = node.test
+        if not (isinstance(t, ast.BoolOp) and isinstance(t.op, ast.And) and len(t.values) == 2
+                and isinstance(t.values[0], ast.UnaryOp) and isinstance(t.values[0].op, ast.Not)
+                and _is_name(t.values[0].operand, opt)):
+            raise _err(node, f'test is not `not {opt} and (...)`')
+        inner = t.values[1]
+        parts = inner.values if isinstance(inner, ast.BoolOp) and isinstance(inner.op, ast.Or) else [inner]
+        chars, names = [], set()
+        for c in parts:
+            if isinstance(c, ast.Compare) and len(c.ops) == 1 and isinstance(c.ops[0], ast.In) \
+                    and isinstance(c.left, ast.Constant) and isinstance(c.left.value, str) and len(c.left.value) == 1 \
+                    and isinstance(c.comparators[0], ast.Name):
+                chars.append(c.left.value)
+                names.add(c.comparators[0].id)
+            else:
+                return None, node.lineno, None
+        if len(names) != 1:
+            return None, node.lineno, None
+        return chars, node.lineno, names.pop()
+    kch, kline, kname = brk('newline_keys')
+    vch, vline, vname = brk('newline_values')
+    # the key test must look at the token value of the main loop, the value test at the value token
+    loops = [n for n in ast.walk(fn) if isinstance(n, ast.For) and _is_name(n.iter, 'tokenizer')]
+    if len(loops) != 1 or not (isinstance(loops[0].target, ast.Tuple) and len(loops[0].target.elts) == 2
+                               and all(isinstance(e, ast.Name) for e in loops[0].target.elts)):
+        raise _err(fn, 'main loop `for token_type, token_value in tokenizer` not recognised')
+    tok_val = loops[0].target.elts[1].id
+    if kname is not None and kname != tok_val:
+        raise _err(fn, f'the newline_keys test looks at {kname}, not at the key token {tok_val}')
+    if vname is not None and vname == tok_val:
+        raise _err(fn, f'the newline_values test looks at the key token {tok_val}')
+    out['key_break'] = kch
+    out['value_break'] = vch
+    out['break_lines'] = [kline, vline]
+
+    # --- flag replacement tests
+    reps = [n for n in ast.walk(fn) if isinstance(n, ast.If) and isinstance(n.test, ast.BoolOp)
+            and isinstance(n.test.op, ast.And) and n.test.values and _is_name(n.test.values[0], 'can_flag_replace')]
+    if len(reps) != 2:
+        raise _err(fn, f'expected two `can_flag_replace and ...` tests, found {len(reps)}')
+    guards = []
+    for n in reps:
+        guarded = False
+        for v in n.test.values[1:]:
+            if _is_name(v, 'cur_block_contents'):
+                guarded = True
+                break
+            if any(isinstance(x, ast.Subscript) and _is_name(x.value, 'cur_block_contents') for x in ast.walk(v)):
+                break
+        guards.append(guarded)
+    out['replace_guards'] = guards
+    out['replace_lines'] = [n.lineno for n in reps]
+
+    # --- single_block early return `return root[0]` at a closing brace: is root tested for a child first?
+    def returns_root0(n: ast.If) -> bool:
+        return any(isinstance(x, ast.Return) and isinstance(x.value, ast.Subscript) and isinstance(x.value.value, ast.Name)
+                   and isinstance(x.value.slice, ast.Constant) and x.value.slice.value == 0 for x in n.body)
+    sbs = [n for n in ast.walk(fn) if isinstance(n, ast.If) and returns_root0(n)]
+    if len(sbs) != 1:
+        raise _err(fn, f'expected one `return root[0]` site, found {len(sbs)}')
+    t = sbs[0].test
+    ops = t.values if isinstance(t, ast.BoolOp) and isinstance(t.op, ast.And) else [t]
+    root_name = next(x.value.value.id for x in sbs[0].body if isinstance(x, ast.Return))
+    base, extra = 0, []
+    for v in ops:
+        if _is_name(v, 'single_block'):
+            base += 1
+        elif isinstance(v, ast.Compare) and len(v.ops) == 1 and isinstance(v.ops[0], ast.Is) \
+                and _is_name(v.left, 'cur_block') and _is_name(v.comparators[0], root_name):
+            base += 1
+        else:
+            extra.append(v)
+    if base != 2:
+        raise _err(sbs[0], 'single_block return is not guarded by `single_block and cur_block is root`')
+    if not extra:
+        out['single_block_guard'] = False
+    elif len(extra) == 1 and isinstance(extra[0], ast.Attribute) and extra[0].attr == '_value' \
+            and _is_name(extra[0].value, root_name):
+        out['single_block_guard'] = True
+    else:
+        raise _err(sbs[0], 'unrecognised extra condition on the single_block return')
+    return out
+
+
+READ_FLAG_REF = """
+flag_inv = flag_val[:1] == '!'
+if flag_inv:
+    flag_val = flag_val[1:]
+flag_val = flag_val.casefold()
+try:
+    flag_result = bool(flags[flag_val])
+except KeyError:
+    flag_result = FLAGS_DEFAULT.get(flag_val, False)
+return flag_inv is not flag_result
+"""
+
+
+def tr_read_flag(tree: ast.Module) -> None:
+    """_read_flag(flags, flag_val) must have the shape that KV/KvFlags.v read_flag mirrors (fail closed)."""
+    fn = next((n for n in tree.body if isinstance(n, ast.FunctionDef) and n.name == '_read_flag'), None)
+    if fn is None:
+        raise TranslateError('keyvalues.py: _read_flag not found')
+    if [a.arg for a in fn.args.args] != ['flags', 'flag_val'] or fn.args.kwonlyargs or fn.args.vararg or fn.args.kwarg:
+        raise _err(fn, '_read_flag(flags, flag_val) expected')
+    got = ast.dump(ast.Module(body=_strip_doc(fn.body), type_ignores=[]))
+    ref_fn = ast.parse('def f():\n' + ''.join('    ' + ln + '\n' for ln in READ_FLAG_REF.strip().splitlines())).body[0]
+    want = ast.dump(ast.Module(body=ref_fn.body, type_ignores=[]))
+    if got != want:
+        raise _err(fn, '_read_flag has an unexpected shape (KV/KvFlags.v mirrors: strip one leading "!", casefold, '
+                       'flags[...] else FLAGS_DEFAULT.get(..., False), inverted is-not)')
+
+
+def coq_brk(chars) -> str:
+    return 'BTOther' if chars is None else f'BTChars {coq_chars("".join(chars))}'
 
 
 def tr_escapes() -> dict:
@@ -431,6 +693,9 @@ def translate() -> tuple[str, dict]:
     braces, s1 = tr_serialise(f_ser, f_in)
     inner, s2 = tr_inner(f_in)
     yields, s3 = tr_export(f_exp)
+    xs = tr_export_struct(f_exp)
+    psites = tr_parse(f_parse)
+    tr_read_flag(tree)
     stores, muts, info = [], [], []
     for fn, sn in ((f_ser, s1), (f_in, s2), (f_exp, s3)):
         a, b, c = census(fn, sn)
@@ -445,6 +710,7 @@ def translate() -> tuple[str, dict]:
          '  e_table := [' + '; '.join(f'({ord(k)}, {ord(v)})' for k, v in esc['table']) + '];',
          '  e_excl := ' + coq_chars(esc['excl']) + ' |}.', '',
          'Definition gen_sercfg : sercfg := {|',
+         f'  t_root_test := {inner["root_test"]};',
          f'  t_open_ind := {coq_pieces(braces["open_ind"])};',
          f'  t_close_ind := {coq_pieces(braces["close_ind"])};',
          f'  t_open_plain := {coq_pieces(braces["open_plain"])};',
@@ -454,12 +720,29 @@ def translate() -> tuple[str, dict]:
          f'  t_tail := {coq_pieces(inner["tail"])};',
          f'  t_leaf := {coq_pieces(inner["leaf"])};',
          f'  t_root_indent := {coq_pieces(inner["root_indent"])} |}}.', '',
+         '(* decisive sites of Keyvalues.parse *)',
+         'Definition gen_parsecfg : parsecfg := {|',
+         f'  p_key_break := {coq_brk(psites["key_break"])};',
+         f'  p_value_break := {coq_brk(psites["value_break"])};',
+         f'  p_replace_guard := {"true" if all(psites["replace_guards"]) else "false"};',
+         f'  p_single_block_guard := {"true" if psites["single_block_guard"] else "false"} |}}.', '',
          '(* f-strings yielded by the deprecated Keyvalues.export() *)',
          'Definition gen_export_yields : list (list piece) := [' + '; '.join(coq_pieces(p) for _, p in yields) + '].', '',
+         '(* the same generator, structurally *)',
+         'Definition gen_expcfg : expcfg := {|',
+         f'  x_root_test := {xs["root_test"]};',
+         '  x_head := [' + '; '.join(coq_pieces(p) for p in xs['head']) + '];',
+         f'  x_prefix := {coq_pieces(xs["prefix"])};',
+         '  x_tail := [' + '; '.join(coq_pieces(p) for p in xs['tail']) + '];',
+         '  x_leaf := [' + '; '.join(coq_pieces(p) for p in xs['leaf']) + '] |}.', '',
          '(* line numbers of stores to / mutating calls on tree objects inside serialise, _serialise, export *)',
          'Definition gen_tree_stores : list N := ' + coq_chars(''.join(chr(x) for x in stores)) + '.',
          'Definition gen_tree_mut_calls : list N := ' + coq_chars(''.join(chr(x) for x in muts)) + '.', '']
+    root_test = inner.pop('root_test')
     side = {'templates': {k: [list(p) for p in v] for k, v in {**braces, **inner}.items()},
+            'root_test': root_test, 'parse_sites': psites,
+            'export_struct': {k: (v if isinstance(v, str) else [list(map(list, y)) if k != 'prefix' else list(y) for y in v])
+                              for k, v in xs.items()},
             'export_yields': [[ln, [list(p) for p in ps]] for ln, ps in yields],
             'escapes': esc['table'], 'escape_re_excluded': esc['excl'],
             'escape_multiline_re_excluded': esc.get('excl_multi'),
